@@ -185,7 +185,7 @@ Proof.
     pose proof (series_length zh _ _ _ Hs) as Hlen.
     destruct (series_split d ps a b Hs) as (psa & psb & -> & Ha & Hb & Hc).
     pose proof (series_length zh _ _ _ Ha) as Hla.
-    rewrite lenN_app' in Hi.
+    rewrite lenN_app' in Hi, Hlen.
     destruct (N.lt_ge_cases i (lenN psa)) as [Hlt|Hge].
     + rewrite bits_msb_left by lia. rewrite get_path_pair.
       destruct (IH psa a i Ha Hlt) as (m & Hg & Hn). exists m. split; [exact Hg|].
@@ -215,7 +215,7 @@ Proof.
     pose proof (series_length zh _ _ _ Hs) as Hlen.
     destruct (series_split d ps a b Hs) as (psa & psb & -> & Ha & Hb & Hc).
     pose proof (series_length zh _ _ _ Ha) as Hla.
-    rewrite lenN_app' in Hi.
+    rewrite lenN_app' in Hi, Hlen.
     destruct (N.lt_ge_cases i (lenN psa)) as [Hlt|Hge].
     + rewrite bits_msb_left by lia. rewrite set_path_cons, step_children_pair. cbn [bind].
       destruct (IH psa a i e v q Ha Hlt Hq) as (a' & Hg & Hn). rewrite Hg. cbn [bind].
